@@ -56,4 +56,39 @@ pub fn replay(args: &[String]) {
             out.emit(&json!({"format": name, "magic": magic, "variant": vname, "hints": hints.len(), "base_kind": base["kind"], "base_state": base["report"]["state"], "diffs": diffs}));
         }
     }
+    // an MP3 without any ID3v2 tag starts with the MPEG frame sync, not with a text signature: the unsigned stream, and the
+    // stream together with a sidecar manifest (signed with no_embed), under every hint
+    if only.as_ref().map(|o| o.iter().any(|x| x == "mp3")).unwrap_or(true) {
+        let src = fixture("sample1.mp3");
+        let raw: Vec<u8> = if src.len() > 10 && &src[0..3] == b"ID3" {
+            let sz = ((src[6] as usize & 0x7f) << 21) | ((src[7] as usize & 0x7f) << 14) | ((src[8] as usize & 0x7f) << 7) | (src[9] as usize & 0x7f);
+            src[(10 + sz).min(src.len())..].to_vec()
+        } else { src.clone() };
+        let starts_with_sync = raw.len() > 2 && raw[0] == 0xff && raw[1] & 0xe0 == 0xe0;
+        let sidecar = catch(std::panic::AssertUnwindSafe(|| -> Result<Vec<u8>, String> {
+            let mut b = c2pa::Builder::from_context(ctx(&Value::Null)).with_definition(simple_manifest_json("c11", "audio/mpeg").to_string().as_str()).map_err(|e| err_kind(&e))?;
+            b.set_no_embed(true);
+            let s = signer("ed25519");
+            let mut dst = std::io::Cursor::new(Vec::new());
+            b.sign(s.as_ref(), "audio/mpeg", &mut std::io::Cursor::new(raw.clone()), &mut dst).map_err(|e| err_kind(&e))
+        }));
+        let read_with = |h: &str, manifest: Option<&Vec<u8>>| -> Value {
+            let r = catch(std::panic::AssertUnwindSafe(|| match manifest {
+                Some(m) => c2pa::Reader::from_context(ctx(&Value::Null)).with_manifest_data_and_stream(m, h, std::io::Cursor::new(raw.clone())),
+                None => read_bytes(ctx(&Value::Null), h, &raw),
+            }));
+            match r { Ok(Ok(r)) => json!({"kind": "ok", "report": report(&r), "codes": codes(&r)}), Ok(Err(e)) => json!({"kind": format!("err:{}", err_kind(&e))}), Err(p) => json!({"kind": format!("panic:{p}")}) }
+        };
+        let mut variants: Vec<(&str, Option<Vec<u8>>)> = vec![("unsigned", None)];
+        match sidecar { Ok(Ok(m)) => variants.push(("sidecar", Some(m))), other => out.emit(&json!({"format": "mp3-tagless", "setup_error": format!("{other:?}")})) }
+        for (vname, m) in variants {
+            let base = read_with("audio/mpeg", m.as_ref());
+            let mut diffs = vec![];
+            for h in &hints {
+                let got = read_with(h, m.as_ref());
+                if got != base { diffs.push(json!({"hint": h, "got_kind": got["kind"], "got_state": got["report"]["state"], "base_kind": base["kind"], "base_state": base["report"]["state"]})); }
+            }
+            out.emit(&json!({"format": "mp3-tagless", "magic": if starts_with_sync { "magic" } else { "none" }, "variant": vname, "hints": hints.len(), "base_kind": base["kind"], "base_state": base["report"]["state"], "diffs": diffs}));
+        }
+    }
 }
